@@ -10,7 +10,7 @@ from ..astutil import attr_stores as _attr_stores, test_atoms, nested_functions,
 from ..cfg import no_exc
 from ..report import Registry, chain, sub
 from ._helpers_rules_d import attr_store_nodes, call_nodes, callee_is, const_is, guard_atom_set, qualname
-from ._helpers_rob_g2 import normal_form, owners_through_helpers, resolve_name, single_defs
+from ._helpers_rob_g2 import calls_of_name, normal_form, owners_through_helpers, resolve_name, single_defs
 
 R = Registry(
     "C48",
@@ -103,7 +103,9 @@ def _bool_env(fn) -> Dict[str, ast.expr]:
 def _nf(ctx, f, keep=()):
     """normal form: extracted helpers inlined (also `state._helper(...)` on another object), call-free
     single-assignment locals resolved"""
-    return normal_form(ctx, f, keep=keep, alias="all")
+    # (`InstanceState._instance_dict` is a class-level placeholder that every instance overwrites with a weakref:
+    #  the call is never the method of that name)
+    return normal_form(ctx, f, keep=tuple(keep) + ("_instance_dict", "obj"), alias="all")
 
 
 def _is_obj_call(v, recv="self") -> bool:
@@ -270,6 +272,10 @@ def r2(ctx):
         elif acts_for:
             # an extracted private helper: every call site lies in an enumerated owner
             helpers[fk] = acts_for
+            for a in acts_for:
+                if a not in found and a not in owners:
+                    # (keeps the instance count invariant under the extraction: the owner still writes, through the helper)
+                    ctx.ok(f"{a}:writes-_strong_obj", STRONG_OWNERS[a] + f" (through helper {fk.split('::')[1]})")
             owners.update(acts_for)
             ctx.ok(f"{fk}:writes-_strong_obj", "private helper called only by " + ", ".join(a.split("::")[1] for a in acts_for))
         else:
@@ -403,7 +409,7 @@ def r4(ctx):
     g = ctx.cfg(rem_n)
     env = _bool_env(rem_n.node)
     disc = call_nodes(g, lambda c: isinstance(c.func, ast.Attribute) and c.func.attr in ("discard", "remove") and modset(c.func.value) and c.args and dotted(c.args[0]) == rem.params[1])
-    w = g.must_pass([g.entry], [g.exit], disc, edge_ok=no_exc) if disc else ["no discard"]
+    w = g.must_pass([g.entry], [g.exit], disc, edge_ok=_assuming(g, {"modified": True}, env, recv=rem.params[1])) if disc else ["no discard"]
     ctx.check(w is None, f"{rem.key}:removed-states-leave-set", "a state removed from the identity map stays in _modified", "self._modified.discard(state)", rem.loc)
 
 
@@ -443,73 +449,139 @@ def _fresh_state(pm, st, recv: str) -> Optional[str]:
     return None
 
 
+def _attach_sites(snode):
+    return [(d, st) for d, t, st in _attr_stores(snode) if d.endswith(".session_id")
+            and isinstance(st, ast.Assign) and not const_is(st.value, None)]
+
+
+def _attach_verdict(g, st, recv, env):
+    """None when every way out of the function after `recv.session_id = <id>` (normal or exceptional) has settled the
+    strong reference of an already-modified state -- passed a `recv._strong_obj = <not None>` store, or a branch outcome
+    that shows `not (recv.modified and recv._strong_obj is None)` -- or when that was settled on every path before the
+    store; else a witness path (list[str]) / a message."""
+    strong = attr_store_nodes(g, "_strong_obj", lambda v: not const_is(v, None), recv)
+    facts = {"modified": True, "no-strong-ref": True}
+
+    def consistent(a, b, lab):
+        n = g.nodes[a]
+        if n.kind == "test" and lab in ("true", "false"):
+            t = getattr(n.stmt, "test", None)
+            if t is not None:
+                v = _tv(t, facts, env, recv)
+                if v is not None and v != (lab == "true"):
+                    return False
+        return True
+    here = g.nodes_for(st)
+    if not strong:
+        return "never"
+    w = g.witness(here, [g.exit, g.raise_exit], avoid=strong, edge_ok=consistent)
+    if w is None:
+        return None
+    if g.witness([g.entry], here, avoid=strong, edge_ok=consistent) is None:
+        return None       # settled before the attach on every path on which it is needed
+    return g.describe_path(w)
+
+
 @R.rule("C48-R5", floor=2, template="T-PATH",
         desc="every site that attaches a state to a session (`<state>.session_id = <non-None>`): the state is freshly "
              "created there, or the strong reference of an already-modified state is (re)established before ANY way "
-             "out of the function after the store -- in particular before listeners, which may raise")
+             "out of the function after the store -- in particular before listeners, which may raise (extracted helpers "
+             "are judged inlined into their callers)")
 def r5(ctx):
     n_sites = 0
+    done_callers = set()
     for m in ctx.index.all_modules():
         if "session_id" not in m.source or not m.relpath.startswith("orm/"):
             continue
         pm = m.parents()
         scopes = []
         for fn in sorted(ctx.index.all_functions(m), key=lambda x: x.key):
-            scopes.append((fn.key, fn.node, fn))
-            for nm, nf in sorted(nested_functions(fn.node).items()):
-                scopes.append((f"{fn.key}.<locals>.{nm}", nf, fn))
+            if not _attach_sites(fn.node) and not any(_attach_sites(nf_) for nf_ in nested_functions(fn.node).values()):
+                continue
+            scopes.append((fn.key, None, fn))
+            for nm, nf_ in sorted(nested_functions(fn.node).items()):
+                scopes.append((f"{fn.key}.<locals>.{nm}", nf_, fn))
         for skey, snode, fn in scopes:
-            stores = [(d, st) for d, t, st in _attr_stores(snode) if d.endswith(".session_id")
-                      and isinstance(st, ast.Assign) and not const_is(st.value, None)]
-            if not stores:
+            raw_stores = _attach_sites(snode if snode is not None else fn.node)
+            if not raw_stores:
                 continue
             ctx.functions_analysed.add(fn.key)
-            g = ctx.cfg(snode)
-            for d, st in stores:
+            # fresh states are recognised on the original AST (block structure), the rest on the normal form
+            fresh_recv = {}
+            for d, st in raw_stores:
+                recv = d.rsplit(".", 1)[0]
+                fr = _fresh_state(pm, st, recv)
+                if fr:
+                    fresh_recv[recv] = fr
+            if snode is None:
+                nfm = _nf(ctx, fn)
+                node = nfm.node
+                g = ctx.cfg(nfm)
+            else:
+                node = snode
+                g = ctx.cfg(snode)
+            env = _bool_env(node)
+            for d, st in _attach_sites(node):
                 recv = d.rsplit(".", 1)[0]
                 n_sites += 1
                 key = f"{skey}:attach[{recv}]:strong-reference-before-any-exit"
                 loc = f"{m.path}:{st.lineno}"
-                fresh = _fresh_state(pm, st, recv)
-                if fresh:
-                    ctx.ok(key, f"state of an instance created right there (never modified): {fresh}")
+                if recv in fresh_recv:
+                    ctx.ok(key, f"state of an instance created right there (never modified): {fresh_recv[recv]}")
                     continue
-                strong = attr_store_nodes(g, "_strong_obj", lambda v: not const_is(v, None), recv)
-                want = {(f"{recv}.modified", True), (f"{recv}._strong_obj is None", True)}
-                # the tests that decide the re-establishing store; once one of them is evaluated the outcome
-                # is settled (true branch: the store follows with nothing in between, checked below)
-                tests = set()
-                settled = set()
-                for sn in strong:
-                    if not want <= guard_atom_set(g, sn):
-                        continue
-                    settled.add(sn)
-                    for t, pol in g.edge_guards(sn):
-                        if pol and set(test_atoms(t, True)) & want:
-                            tests.update(tn.id for tn in g.nodes if tn.kind == "test" and tn.stmt.test is t)
-                # once such a test has come out true, nothing but further such tests stands before the store
-                for tn in sorted(tests):
-                    nxt = [b for b, lab in g.succ[tn] if lab == "true" and b not in settled and b not in tests]
-                    if nxt and g.must_pass(nxt, [g.exit, g.raise_exit], settled | tests) is not None:
-                        tests = set()
-                        break
-                if not tests:
+                w = _attach_verdict(g, st, recv, env)
+                if w is None:
+                    ctx.ok(key, "every way out after the attach has settled `modified and _strong_obj is None`")
+                    continue
+                # an extracted helper that only attaches: judged where it is called (inlined into each caller)
+                name = fn.name
+                sites = calls_of_name(ctx.index, name) if snode is None and name.startswith("_") and not name.endswith("__") else None
+                via = []
+                if sites:
+                    for ok_, cm, c in sites:
+                        if ok_ == fn.key or not ctx.index.has(ok_):
+                            via = None
+                            break
+                        cf = _nf(ctx, ctx.func(ok_))
+                        if fn.key not in cf.inlined:
+                            via = None
+                            break
+                        via.append((ok_, cf))
+                if via:
+                    for ok_, cf in via:
+                        if (ok_, fn.key) in done_callers:
+                            continue
+                        done_callers.add((ok_, fn.key))
+                        cg = ctx.cfg(cf)
+                        cenv = _bool_env(cf.node)
+                        for d2, st2 in _attach_sites(cf.node):
+                            if getattr(st2, "_inlined_from", None) is None and not any(getattr(a_, "_inlined_from", None) == fn.key for a_ in _anc_stmts(cf, st2)):
+                                continue
+                            r2_ = d2.rsplit(".", 1)[0]
+                            w2 = _attach_verdict(cg, st2, r2_, cenv)
+                            ctx.check(w2 is None, f"{ok_}:attach[{r2_}]:strong-reference-before-any-exit",
+                                      _R5_MSG.format(st=unparse(st2), recv=r2_) + f" (attach performed by helper {fn.qualname})",
+                                      f"helper {fn.qualname} inlined: settled before any exit", cf.loc, None if w2 is None or w2 == "never" else w2)
+                    ctx.ok(key, "attaching helper, judged inlined into its callers: " + ", ".join(k.split("::")[1] for k, _ in via))
+                    continue
+                if w == "never":
                     ctx.violation(key, f"`{unparse(st)}` attaches a state that may already be modified, and the function never "
                                        f"gives it a strong reference under `{recv}.modified and {recv}._strong_obj is None`", loc)
-                    continue
-                here = g.nodes_for(st)
-                w = g.must_pass(here, [g.exit, g.raise_exit], tests)
-                if w is not None:
-                    # also fine: the reference was settled on every path BEFORE the store
-                    if all(g.always_preceded(h, tests) is None for h in here):
-                        w = None
-                ctx.check(w is None, key,
-                          f"after `{unparse(st)}` the function can be left (a listener / callee raising) before the strong "
-                          f"reference of an already-modified state is established: the state is attached and dirty but only "
-                          f"weakly referenced, so its pending change is lost when the application drops the object",
-                          "every way out after the attach passes the `modified and _strong_obj is None` re-establishing test",
-                          loc, w)
+                else:
+                    ctx.violation(key, _R5_MSG.format(st=unparse(st), recv=recv), loc, w)
     ctx.require(n_sites >= 2, f"only {n_sites} attach site(s) found (expected Session._after_attach and the loader)")
+
+
+_R5_MSG = ("after `{st}` the function can be left (a listener / callee raising) before the strong "
+           "reference of an already-modified state is established: the state is attached and dirty but only "
+           "weakly referenced, so its pending change is lost when the application drops the object")
+
+
+def _anc_stmts(cf, st):
+    cur = cf.pm.get(st)
+    while cur is not None:
+        yield cur
+        cur = cf.pm.get(cur)
 
 
 # ---------------------------------------------------------------------- self-test battery
@@ -593,3 +665,136 @@ R.mutant("benign-attach-ref-before-session-id", SESSION, sub(
     "            state._strong_obj = obj\n"
     "        state.session_id = self.hash_key\n"
     "        self.dispatch.after_attach(self, state)\n"), None)
+
+# ---- rob-G2: benign refactoring families (stored diffs rfG_10 / rfG_12 and neighbours) + the breaking twins that show
+# the rules still see through the same spellings
+_ADD = "                has_modified = bool(instance_dict._modified)\n                instance_dict._modified.add(self)\n"
+_ADD_ALIAS = ("                modified_states = instance_dict._modified\n"
+              "                has_modified = bool(modified_states)\n"
+              "                modified_states.add(self)\n")
+_AUTOBEGIN_INLINE = (
+    "                    # inline of autobegin, to ensure session transaction\n"
+    "                    # snapshot is established\n"
+    "                    try:\n"
+    "                        session = _sessions[self.session_id]\n"
+    "                    except KeyError:\n"
+    "                        pass\n"
+    "                    else:\n"
+    "                        if session._transaction is None:\n"
+    "                            session._autobegin_t()\n"
+)
+_COMMIT_DEF = "    def _commit(self, dict_: _InstanceDict, keys: Iterable[str]) -> None:\n"
+_AUTOBEGIN_HELPER = (
+    "    def _autobegin_owning_session(self) -> None:\n"
+    "        try:\n"
+    "            session = _sessions[self.session_id]\n"
+    "        except KeyError:\n"
+    "            pass\n"
+    "        else:\n"
+    "            if session._transaction is None:\n"
+    "                session._autobegin_t()\n\n"
+)
+R.mutant("benign-modified-set-alias-and-autobegin-helper", STATE, chain(
+    sub(_ADD, _ADD_ALIAS),
+    sub(_AUTOBEGIN_INLINE, "                    self._autobegin_owning_session()\n"),
+    sub(_COMMIT_DEF, _AUTOBEGIN_HELPER + _COMMIT_DEF),
+), None)
+R.mutant("modified-set-alias-never-added", STATE, sub(
+    _ADD, "                modified_states = instance_dict._modified\n                has_modified = bool(modified_states)\n"), "C48-R1")
+R.mutant("modified-set-alias-added-to-a-copy", STATE, sub(
+    _ADD, "                modified_states = set(instance_dict._modified)\n                has_modified = bool(modified_states)\n                modified_states.add(self)\n"), "C48-R1")
+# the strong reference taken by an extracted helper (with and without the attachment test inside it)
+_HOLD_HELPER = "    def _hold_strong_ref(self, instance: Optional[object]) -> None:\n        self._strong_obj = instance\n\n"
+R.mutant("benign-strong-ref-through-helper", STATE, chain(
+    sub("            if self.session_id:\n                self._strong_obj = inst\n", "            if self.session_id:\n                self._hold_strong_ref(inst)\n"),
+    sub(_COMMIT_DEF, _HOLD_HELPER + _COMMIT_DEF),
+), None)
+R.mutant("strong-ref-helper-holds-the-state-not-the-instance", STATE, chain(
+    sub("            if self.session_id:\n                self._strong_obj = inst\n", "            if self.session_id:\n                self._hold_strong_ref(self)\n"),
+    sub(_COMMIT_DEF, _HOLD_HELPER + _COMMIT_DEF),
+), "C48-R1")
+R.mutant("strong-ref-helper-called-from-a-non-owner", STATE, chain(
+    sub("            if self.session_id:\n                self._strong_obj = inst\n", "            if self.session_id:\n                self._hold_strong_ref(inst)\n"),
+    sub(_COMMIT_DEF, _HOLD_HELPER + _COMMIT_DEF),
+    sub("        self.expired = False\n\n        self.expired_attributes.difference_update(\n            set(keys).intersection(dict_)\n        )\n",
+        "        self.expired = False\n        self._hold_strong_ref(None)\n\n        self.expired_attributes.difference_update(\n            set(keys).intersection(dict_)\n        )\n"),
+), "C48-R2")
+R.mutant("benign-strong-ref-attachment-test-inverted", STATE, sub(
+    "            inst = self.obj()\n            if self.session_id:\n                self._strong_obj = inst\n\n",
+    "            inst = self.obj()\n            attached = bool(self.session_id)\n            if not attached:\n                pass\n            else:\n                self._strong_obj = inst\n\n"
+    "            if attached:\n"), None)
+R.mutant("benign-identity-map-test-is-not-none", STATE, sub(
+    "            if instance_dict:\n" + _ADD + "            else:\n                has_modified = False\n",
+    "            has_modified = False\n            if instance_dict is not None:\n" + _ADD), None)
+# Session._after_attach: flag local, early return, helper on the state
+_ATTACH_GUARD = "        if state.modified and state._strong_obj is None:\n            state._strong_obj = obj\n"
+R.mutant("benign-attach-guard-through-flag-local", SESSION, sub(
+    _ATTACH_GUARD, "        needs_strong_ref = state.modified and state._strong_obj is None\n        if needs_strong_ref:\n            state._strong_obj = obj\n"), None)
+R.mutant("benign-attach-guard-de-morgan", SESSION, sub(
+    _ATTACH_GUARD, "        if not (not state.modified or state._strong_obj is not None):\n            state._strong_obj = obj\n"), None)
+R.mutant("attach-guard-flag-local-wrong", SESSION, sub(
+    _ATTACH_GUARD, "        needs_strong_ref = state.modified or state._strong_obj is None\n        if needs_strong_ref:\n            state._strong_obj = obj\n"), "C48-R3")
+_HOLD_IF_MOD = ("    def _hold_if_modified(self, instance: object) -> None:\n"
+                "        if not self.modified:\n            return\n"
+                "        if self._strong_obj is None:\n            self._strong_obj = instance\n\n")
+_AFTER_ATTACH_DEF = "    def _after_attach(self, state: InstanceState[Any], obj: object) -> None:\n"
+R.mutant("benign-attach-reestablish-through-session-helper", SESSION, chain(
+    sub(_ATTACH_GUARD, "        self._hold_if_modified(state, obj)\n"),
+    sub(_AFTER_ATTACH_DEF, "    def _hold_if_modified(self, state: InstanceState[Any], instance: object) -> None:\n"
+                           "        if not state.modified:\n            return\n"
+                           "        if state._strong_obj is None:\n            state._strong_obj = instance\n\n" + _AFTER_ATTACH_DEF),
+), None)
+R.mutant("attach-reestablish-helper-only-when-unmodified", SESSION, chain(
+    sub(_ATTACH_GUARD, "        self._hold_if_modified(state, obj)\n"),
+    sub(_AFTER_ATTACH_DEF, "    def _hold_if_modified(self, state: InstanceState[Any], instance: object) -> None:\n"
+                           "        if state.modified:\n            return\n"
+                           "        if state._strong_obj is None:\n            state._strong_obj = instance\n\n" + _AFTER_ATTACH_DEF),
+), "C48-R3")
+# the attach itself moved into a helper: judged inlined into _after_attach
+_SET_SID = "        state.session_id = self.hash_key\n"
+R.mutant("benign-attach-store-through-helper", SESSION, chain(
+    sub(_SET_SID + _ATTACH_GUARD, "        self._bind_state(state)\n" + _ATTACH_GUARD),
+    sub(_AFTER_ATTACH_DEF, "    def _bind_state(self, state: InstanceState[Any]) -> None:\n" + _SET_SID + "\n" + _AFTER_ATTACH_DEF),
+), None)
+R.mutant("attach-store-helper-called-after-listeners-too", SESSION, chain(
+    sub(_SET_SID + _ATTACH_GUARD + "        self.dispatch.after_attach(self, state)\n",
+        "        self._bind_state(state)\n        self.dispatch.after_attach(self, state)\n" + _ATTACH_GUARD),
+    sub(_AFTER_ATTACH_DEF, "    def _bind_state(self, state: InstanceState[Any]) -> None:\n" + _SET_SID + "\n" + _AFTER_ATTACH_DEF),
+), "C48-R5")
+# clearing sites: flag local, helper on self / on the iterated state
+_EXPIRE = "        if self.modified:\n            modified_set.discard(self)\n            self.committed_state.clear()\n            self.modified = False\n\n        self._strong_obj = None\n"
+R.mutant("benign-expire-modified-flag-local", STATE, sub(
+    _EXPIRE, "        was_modified = self.modified\n        if was_modified:\n            modified_set.discard(self)\n            self.committed_state.clear()\n            self.modified = False\n\n        self._strong_obj = None\n"), None)
+R.mutant("benign-expire-early-clear-when-unmodified", STATE, sub(
+    _EXPIRE, "        if not self.modified:\n            self._strong_obj = None\n        else:\n            modified_set.discard(self)\n            self.committed_state.clear()\n"
+             "            self.modified = False\n            self._strong_obj = None\n"), None)
+R.mutant("expire-clears-when-modified-keeps-flag", STATE, sub(
+    _EXPIRE, "        if not self.modified:\n            pass\n        else:\n            modified_set.discard(self)\n            self.committed_state.clear()\n"
+             "            self._strong_obj = None\n"), "C48-R2")
+_FORGET = "    def _forget_session(self) -> None:\n        self.session_id = self._strong_obj = None\n\n"
+_DISPOSE_DEF = "    def _dispose(self) -> None:\n"
+R.mutant("benign-detach-and-cleanup-share-helper", STATE, chain(
+    sub("        self.session_id = self._strong_obj = None\n", "        self._forget_session()\n", count=2),
+    sub(_DISPOSE_DEF, _FORGET + _DISPOSE_DEF),
+), None)
+_DROP = "    def _drop_strong_ref(self) -> None:\n        self._strong_obj = None\n\n"
+_COMMIT_ALL_TAIL = "            state.modified = state.expired = False\n            state._strong_obj = None\n"
+R.mutant("benign-commit-all-clears-through-state-helper", STATE, chain(
+    sub(_COMMIT_ALL_TAIL, "            state.modified = state.expired = False\n            state._drop_strong_ref()\n"),
+    sub(_DISPOSE_DEF, _DROP + _DISPOSE_DEF),
+), None)
+R.mutant("commit-all-helper-clears-before-reset-is-dropped", STATE, chain(
+    sub(_COMMIT_ALL_TAIL, "            state.expired = False\n            state._drop_strong_ref()\n"),
+    sub(_DISPOSE_DEF, _DROP + _DISPOSE_DEF),
+), "C48-R2")
+R.mutant("drop-helper-also-called-by-partial-commit", STATE, chain(
+    sub(_COMMIT_ALL_TAIL, "            state.modified = state.expired = False\n            state._drop_strong_ref()\n"),
+    sub(_DISPOSE_DEF, _DROP + _DISPOSE_DEF),
+    sub("        self.expired = False\n\n        self.expired_attributes.difference_update(\n            set(keys).intersection(dict_)\n        )\n",
+        "        self.expired = False\n        self._drop_strong_ref()\n\n        self.expired_attributes.difference_update(\n            set(keys).intersection(dict_)\n        )\n"),
+), "C48-R2")
+# identity map side (C48-R4)
+R.mutant("benign-incoming-state-early-return", IDENT, sub(
+    "        if state.modified:\n            self._modified.add(state)\n", "        if not state.modified:\n            return\n        tracked = self._modified\n        tracked.add(state)\n"), None)
+R.mutant("incoming-state-added-only-when-unmodified", IDENT, sub(
+    "        if state.modified:\n            self._modified.add(state)\n", "        if not state.modified:\n            self._modified.add(state)\n"), "C48-R4")
